@@ -341,6 +341,37 @@ func TestVerif_C12(t *testing.T) {
 				rejections = append(rejections, m)
 			}
 		}
+		// rejections and handler output may travel on different paths inside the relay:
+		// a rejection may still be on its way when the handler's end marker arrives
+		nbad := 0
+		for _, f := range frames {
+			if !f.valid {
+				nbad++
+			}
+		}
+		for len(rejections) < nbad {
+			rctx, rcancel := context.WithTimeout(ctx, vk.WaitBound/4)
+			typ, data, err := conn.Read(rctx)
+			rcancel()
+			if err != nil {
+				break
+			}
+			if typ != websocket.MessageText {
+				rep.Violation("output/not-a-text-frame", "the relay sent a binary frame", wit(nil))
+				return
+			}
+			m, derr := c12Decode(data)
+			if derr != nil {
+				rep.Violation("output/undecodable", "a frame from the relay does not decode as a server message: "+derr.Error(), wit(map[string]any{"frame": string(data)}))
+				return
+			}
+			if bytes.Contains(data, []byte("⟦H")) {
+				rep.Violation("output/after-end-marker", "a handler emission arrived after the handler's last emission", wit(nil))
+				return
+			}
+			rejections = append(rejections, m)
+			rep.Count("rejections_arriving_after_the_end_marker", 1)
+		}
 		rep.Eval(1)
 		h.mu.Lock()
 		got := append([]mocrelay.ClientMsg{}, h.got...)
@@ -411,29 +442,42 @@ func TestVerif_C12(t *testing.T) {
 			rep.Violation(sig, fmt.Sprintf("%d frames had to be rejected, the client received %d rejections", bad, len(rejections)), wit(map[string]any{"rejections": describeServer(rejections)}))
 			return
 		}
+		// every string that occurs (decoded) in an offending frame
+		named := map[string]bool{}
+		var walk func(v any)
+		walk = func(v any) {
+			switch t := v.(type) {
+			case string:
+				named[t] = true
+			case []any:
+				for _, e := range t {
+					walk(e)
+				}
+			case map[string]any:
+				for _, e := range t {
+					walk(e)
+				}
+			}
+		}
+		for _, f := range frames {
+			if !f.valid {
+				var v any
+				if json.Unmarshal(f.data, &v) == nil {
+					walk(v)
+				}
+			}
+		}
 		for _, m := range rejections {
 			switch x := m.(type) {
 			case *mocrelay.ServerNoticeMsg:
 			case *mocrelay.ServerOKMsg:
-				// a rejecting OK must name an event that one of the offending frames carries
-				named := offenders[x.EventID]
-				for _, f := range frames {
-					if !named && !f.valid && x.EventID != "" && bytes.Contains(f.data, []byte(x.EventID)) {
-						named = true
-					}
-				}
-				if x.Accepted || !named {
+				// a rejecting OK must name an event id that an offending frame carries
+				if x.Accepted || !(offenders[x.EventID] || named[x.EventID]) {
 					rep.Violation("rejection/wrong-form", "an OK that is not a rejection of an offending event: "+vk.DescribeServerMsg(m), wit(nil))
 					return
 				}
 			case *mocrelay.ServerClosedMsg:
-				named := false
-				for _, f := range frames {
-					if !f.valid && x.SubscriptionID != "" && bytes.Contains(f.data, []byte(x.SubscriptionID)) {
-						named = true
-					}
-				}
-				if !named {
+				if !named[x.SubscriptionID] {
 					rep.Violation("rejection/wrong-form", "a CLOSED that names no subscription of an offending frame: "+vk.DescribeServerMsg(m), wit(nil))
 					return
 				}
